@@ -61,6 +61,22 @@ CLAIMED.update({
               "PointTier.insertEntry is modelled and compared, its specification is stated but not separately proved."),
 })
 
+CLAIMED.update({
+    "C05": _c("Proof: Props/C05.v shows that the constructors return only well-formed tiers (arbitrary entry lists), that each of the "
+              "16 interval-tier and 12 point-tier operations maps a well-formed tier to a well-formed tier or an error, hence by "
+              "induction over the history that every reachable tier is well-formed, and that validate() is True on well-formed "
+              "tiers.  Random histories (<=12 steps, adaptive arguments) are run on the implementation; after every step the tier's "
+              "well-formedness (on an order-isomorphic encoding of its float state), its validate() and, on dyadic grids, its "
+              "equality with the model's state are evaluated inside Coq.",
+              "Coq proof (invariant, induction over operation histories) + in-Coq differential correspondence on histories", "5/C05"),
+    "C14": _c("Proof: Props/C14.v shows for all inputs: reference timestamps strictly increasing; nearest-reference choice (closest, "
+              "earlier on ties); a time moves iff within maxDifference (inclusive); adjusted times never cross; dejitter keeps count, "
+              "order and labels and returns only well-formed tiers; morph keeps labels, gives selected intervals the target's "
+              "durations, keeps gaps, first start and trailing gap, and rejects unequal counts.  Implementation output is compared with "
+              "model and an independently written specification inside Coq; alignBoundariesAcrossTiers tier by tier.",
+              "Coq proof (scan invariant for the first minimiser, exchange argument for monotonicity, list induction) + in-Coq differential correspondence", "5/C14"),
+})
+
 PENDING = {}
 
 
